@@ -99,6 +99,27 @@ def run(ctx):
                 ctx.violation("election case %r: real class gave %r, specification says %r" % (c, got, want),
                               {"stage": "replay of TLC-enumerated cases", "case": c, "observed": got, "expected": want,
                                "replay": {"case": c}})
+    # the stateless elections once more, now with ONE election object per parameter set serving every case in a shuffled order (member lists
+    # of different lengths alternate): the verdict is a function of the vote pattern, not of what the object was asked before
+    Maj, Min, Ord, _ = elections()
+    objs, reused_bad = {}, 0
+    order = [c for c in cases if c["kind"] in ("majority", "min", "ordered")]
+    rng.shuffle(order)
+    for c in order:
+        key = (c["kind"], c.get("a", 0), c.get("c", 0))
+        if key not in objs:
+            objs[key] = Maj() if c["kind"] == "majority" else (Min(approvals_needed=c["a"]) if c["kind"] == "min"
+                                                              else Ord(approvals_needed=c["a"], confirmations_needed=c["c"]))
+        try:
+            got = st(objs[key]([Stub(s) for s in c["v"]]))
+        except Exception as ex:  # noqa
+            got = "raised " + type(ex).__name__
+        if got != c["out"]:
+            reused_bad += 1
+            if reused_bad <= 3:
+                ctx.violation("election case %r on an election object that has served other member lists before: real class gave %r, specification says %r"
+                              % (c, got, c["out"]), {"stage": "reused election objects", "case": c, "observed": got, "expected": c["out"], "replay": {"case": c}})
+    ctx.parts["reused election objects"] = {"cases": len(order), "objects": len(objs), "mismatches": reused_bad}
     ctx.traces += len(cases)
     ctx.events += len(cases)
     ctx.nontrivial += sum(1 for c in cases if c["out"] != "None")
